@@ -218,10 +218,21 @@ def marked_vs_trim(ctx, case, real):
     for fn, side, recs in pipeprop.output_roles(c2, trim):
         for r in recs:
             tr[(side, rid(r[0]))] = r
+    in_len = {}
+    for sd_, reads_ in ((0, case["reads1"]), (1, case["reads2"] or [])):
+        for n_, s_, _q in reads_:
+            in_len[(sd_, rid(n_))] = len(s_)
     for fn, side, recs in pipeprop.output_roles(case, real):
         for name, s, q in recs:
             t = tr.get((side, rid(name)))
             if t is None:
+                continue
+            # mask and lowercase keep the length of the read (only adapter options are present here; a swapped mate of a --revcomp pair has
+            # the other mate's length)
+            lens_ok = {in_len.get((0, rid(name))), in_len.get((1, rid(name)))} - {None}
+            if len(s) not in lens_ok:
+                ctx.failures.append(Failure(f"C03/{action}-changes-length", f"--action={action} does not keep the length of the read", case_input(case), [name, s],
+                                            dict(input_lengths=sorted(lens_ok))))
                 continue
             kept = t[1]
             ok = False
@@ -276,6 +287,8 @@ def run(ctx):
             body2 = pipe.rs(ctx.rng, ctx.rng.randint(4, 12))
             k = ctx.rng.random()
             s2 = body2 + (X + pipe.rs(ctx.rng, 2) if k < 0.4 else "") + Y + pipe.rs(ctx.rng, ctx.rng.randint(0, 4)) if k < 0.8 else body2
+            if ctx.rng.random() < 0.2:
+                s1 = X + pipe.rs(ctx.rng, ctx.rng.randint(0, 4))        # the 3' adapter right at the start: a round removes everything that is left
             r1.append((f"r{i}", s1, "I" * len(s1)))
             r2.append((f"r{i}", s2, "5" * len(s2)))
         argv = ["--no-index", "-a", "a0=" + X, "-A", "b0=" + Y, "--revcomp", "--action", action, "-o", "{dir}/o1.fastq", "-p", "{dir}/o2.fastq"]
